@@ -1,6 +1,10 @@
 package bpmn
 
-import "github.com/olive-io/bpmn/schema"
+import (
+	"context"
+
+	"github.com/olive-io/bpmn/schema"
+)
 
 // C12: embedded sub-process - the parent's token continues past the sub-process exactly once, after every inner token is consumed.
 // Real newSubProcess constructor (inner start event -> end event), subProcess.NextAction / run / startAll / ceaseFlowMonitor, the
@@ -132,4 +136,41 @@ func VerifC12_InnerActivityKinds() {
 		return
 	}
 	verifAssert(in.activity.Type() == out.activity.Type(), "an activity inside a sub-process is the same kind of node (requested with the same activity type) as inline")
+}
+
+// C12 (relay): the parent's token is released by the sub-process node only when the inner instance has reported that no
+// inner token remains (CeaseFlowTrace on the inner tracer) - not when an inner token reaches an end event - and then exactly
+// once.  Real subProcess.NextAction / run (relay loop); the inner instance is stood in for by the harness, which emits the
+// inner traces on the sub-process' inner tracer (subProcess.startAll is replaced by a no-op in this scenario).
+func verifSubStartAll(sp *subProcess, ctx context.Context) error { return nil }
+
+func VerifC12_RelayRelease() {
+	b := verifNewB("p")
+	b.flow("in", "s", "sub", false)
+	b.subProcess("sub", []string{"in"}, []string{"out"}, false)
+	b.flow("out", "sub", "after", false)
+	b.task("after", []string{"out"}, nil)
+	inst := verifNewInst(b)
+	if inst.proc == nil {
+		return
+	}
+	h := inst.nodeAt("sub").(*harness)
+	spn := h.activity.(*subProcess)
+	var released int64
+	go func() {
+		act := <-spn.NextAction(inst.ctx, &verifFlowRef{n: 1})
+		if fa, ok := act.(flowAction); ok && len(fa.sequenceFlows) == 1 {
+			verifAdd(&released, 1)
+		}
+	}()
+	verifQuiesce() // the relay listens on the inner tracer
+	innerEnd := &spn.element.EndEventField[0]
+	spn.subTracer.Send(CompletionTrace{Node: innerEnd})
+	spn.subTracer.Send(TerminationTrace{FlowId: &verifId{n: 7}, Source: innerEnd})
+	verifQuiesce()
+	verifAssert(verifGet(&released) == 0, "the parent's token does not continue while the inner instance has not reported that no token remains")
+	spn.subTracer.Send(CeaseFlowTrace{Process: spn.element})
+	verifQuiesce()
+	verifReach("quiescent")
+	verifAssert(verifGet(&released) == 1, "the parent's token continues exactly once when the inner instance has completed")
 }
